@@ -21,7 +21,14 @@ type knownFinding struct {
 
 type baselineFile struct {
 	Obligations map[string][]string `json:"obligations"` // property -> names
+	// parameter names (receiver first) of every function under contract when the baseline was written:
+	// a contract written for parameter r still resolves after the parameter was renamed
+	Signatures map[string][]string `json:"signatures,omitempty"`
 }
+
+// oldSigs: signatures recorded in the baseline (loaded by main); curSigs: signatures of this tree.
+var oldSigs = map[string][]string{}
+var curSigs = map[string][]string{}
 
 func loadJSON(path string, v interface{}) bool {
 	b, err := os.ReadFile(path)
@@ -291,7 +298,7 @@ func writeBaseline(cfg *runCfg, obls []*Obligation, engineErrors int) int {
 		fmt.Fprintf(os.Stderr, "ENGINE-ERROR: baseline not written (%d engine errors)\n", engineErrors)
 		return 2
 	}
-	out := baselineFile{Obligations: map[string][]string{}}
+	out := baselineFile{Obligations: map[string][]string{}, Signatures: curSigs}
 	bad := 0
 	for _, o := range obls {
 		if o.Canary {
